@@ -111,10 +111,10 @@ def check_C01(tier, seed):
     rng = qc.rng
     quick = tier == "quick"
     progs = run.export("GenQuery", "G1-bfs", "PROG", constants=dict(
-        NV=1, LeafLimit=12 if quick else 45, MaxLeaves=2, MaxNot=1 if quick else 2, NeedNot=False),
+        G="G12", NV=1, LeafLimit=12 if quick else 45, MaxLeaves=2, MaxNot=1 if quick else 2, NeedNot=False),
         invariants=("Export", "WellFormed"))
     progs += run.export("GenQuery", "G1-sim", "PROG", constants=dict(
-        NV=1, LeafLimit=45, MaxLeaves=4 if quick else 6, MaxNot=2, NeedNot=False),
+        G="G12", NV=1, LeafLimit=45, MaxLeaves=4 if quick else 6, MaxNot=2, NeedNot=False),
         simulate=1500 if quick else 20000, depth=14 if quick else 22)
     cov = datasets.covering_world(9)
     for p in progs:
@@ -139,10 +139,10 @@ def _programs(run, nv, quick, need_not=False, tag="", leaf_quick=None, leaf_full
     lq = leaf_quick or (12 if nv == 1 else 10)
     lf = leaf_full or full
     progs = run.export("GenQuery", f"G{nv}{tag}-bfs", "PROG", constants=dict(
-        NV=nv, LeafLimit=lq if quick else lf, MaxLeaves=maxleaves_bfs, MaxNot=1 if quick else 2, NeedNot=need_not),
+        G="G12", NV=nv, LeafLimit=lq if quick else lf, MaxLeaves=maxleaves_bfs, MaxNot=1 if quick else 2, NeedNot=need_not),
         invariants=("Export", "WellFormed"))
     progs += run.export("GenQuery", f"G{nv}{tag}-sim", "PROG", constants=dict(
-        NV=nv, LeafLimit=full, MaxLeaves=4 if quick else 6, MaxNot=2, NeedNot=need_not),
+        G="G12", NV=nv, LeafLimit=full, MaxLeaves=4 if quick else 6, MaxNot=2, NeedNot=need_not),
         simulate=sim_quick if quick else sim_full, depth=14 if quick else 22)
     return progs
 
@@ -489,9 +489,9 @@ def check_C07(tier, seed):
                       constraint="Bound", count=False)
     behs += run.export("Lazy", "walks", "BEH", constants=dict(N=1, MaxLen=12 if quick else 20), invariants=("Export",),
                        constraint="Bound", simulate=300 if quick else 5000, depth=13 if quick else 21, count=False)
-    progs = run.export("GenQuery", "G1", "PROG", constants=dict(NV=1, LeafLimit=45, MaxLeaves=1 if quick else 2,
+    progs = run.export("GenQuery", "G1", "PROG", constants=dict(G="G12", NV=1, LeafLimit=45, MaxLeaves=1 if quick else 2,
                                                                  MaxNot=1, NeedNot=False), count=False)
-    progs += run.export("GenQuery", "G1-sim", "PROG", constants=dict(NV=1, LeafLimit=45, MaxLeaves=4, MaxNot=2, NeedNot=False),
+    progs += run.export("GenQuery", "G1-sim", "PROG", constants=dict(G="G12", NV=1, LeafLimit=45, MaxLeaves=4, MaxNot=2, NeedNot=False),
                         simulate=300 if quick else 3000, depth=14, count=False)
     cases = []
     for b in behs:
@@ -562,9 +562,9 @@ def check_C04(tier, seed):
     qc = QueryCheck(run)
     progs = {}
     for nv in (1, 2):
-        ps = run.export("GenQuery", f"G{nv}", "PROG", constants=dict(NV=nv, LeafLimit=16 if nv == 1 else 12, MaxLeaves=2,
+        ps = run.export("GenQuery", f"G{nv}", "PROG", constants=dict(G="G12", NV=nv, LeafLimit=16 if nv == 1 else 12, MaxLeaves=2,
                                                                       MaxNot=1, NeedNot=False), count=False)
-        ps += run.export("GenQuery", f"G{nv}-sim", "PROG", constants=dict(NV=nv, LeafLimit=45 if nv == 1 else 34, MaxLeaves=4,
+        ps += run.export("GenQuery", f"G{nv}-sim", "PROG", constants=dict(G="G12", NV=nv, LeafLimit=45 if nv == 1 else 34, MaxLeaves=4,
                                                                          MaxNot=2, NeedNot=False),
                          simulate=500 if quick else 4000, depth=14, count=False)
         progs[nv] = ps
@@ -646,3 +646,131 @@ def check_C05(tier, seed, extra_programs=None):
 
 
 CHECKS["C05"] = check_C05
+
+
+# ------------------------------------------------------- C10 C15 C16 C17 (further grammars)
+def _no_repeats(W):
+    """Inner collections without repeated elements (whether a repeated element of one inner collection gives one
+    row or two is not fixed by C16's wording; everything else is)."""
+    for o in W["objs"]:
+        for name in ("items", "t", "refs"):
+            seen, out = set(), []
+            for x in o["f"][name]["v"]:
+                if x["v"] not in seen:
+                    seen.add(x["v"])
+                    out.append(x)
+            o["f"][name]["v"] = out
+    return W
+
+
+def _grammar_check(prop, tier, seed, grammars, rule, nvars, leaf_quick=40, sim_quick=400, sim_full=6000,
+                   worlds_per_prog=(1, 3), nontrivial=None, quick_cap=2500, full_cap=40000, events=None,
+                   maxleaves_sim=(3, 5), needs=None, fix_world=None, extra=None):
+    run = Run(prop, tier, seed)
+    quick = tier == "quick"
+    run.rule = rule
+    run.assumptions = QUERY_ASSUMPTIONS
+    qc = QueryCheck(run)
+    rng = qc.rng
+    for g in grammars:
+        progs = run.export("GenQuery", f"{g}-bfs", "PROG", constants=dict(
+            G=g, NV=2, LeafLimit=leaf_quick if quick else 60, MaxLeaves=2, MaxNot=1, NeedNot=False),
+            invariants=("Export", "WellFormed"))
+        progs += run.export("GenQuery", f"{g}-sim", "PROG", constants=dict(
+            G=g, NV=2, LeafLimit=60, MaxLeaves=maxleaves_sim[0] if quick else maxleaves_sim[1], MaxNot=2, NeedNot=False),
+            simulate=sim_quick if quick else sim_full, depth=12 if quick else 18)
+        if needs:
+            progs = [p for p in progs if needs(p)]
+        cap = quick_cap if quick else full_cap
+        if len(progs) > cap:
+            progs = rng.sample(progs, cap)
+            run.exhaustive = False
+        for p in progs:
+            for _ in range(worlds_per_prog[0] if quick else worlds_per_prog[1]):
+                W, doms = _world_and_doms(rng, nvars, quick)
+                if fix_world:
+                    W = fix_world(copy.deepcopy(W))
+                q = mk_query(p, doms)
+                qc.add(W, [q], events(q) if events else [drain_ev()])
+    if extra:
+        extra(qc, rng, quick)
+    qc.execute(nontrivial or _nontrivial_rows)
+    return run.finish()
+
+
+def check_C10(tier, seed):
+    def nontrivial(t):
+        ev = t["evs"][0]
+        q = t["qs"][0]
+        free = [v for k, v in enumerate(q["vars"]) if (k + 1) not in q["bound"]]
+        n = 1
+        for v in free:
+            n *= len(v["dom"])
+        if ev.get("exc") == "none" and 0 < len(ev["rows"]) < n:
+            return digest(q["cond"])
+        return None
+    return _grammar_check(
+        "C10", tier, seed, ["G3"],
+        "for_all(u, c) and for_all(u.n, c) with c any tree over leaves that mention the universal variable, the free "
+        "variable, both (joins, membership, predicates), negated or not, alone or conjoined (either side) with a condition "
+        "on the free variable; universal domains are non-empty; TLC computes the universally quantified statement; "
+        "non-trivial = some but not all bindings of the free variable qualify", 2, nontrivial=nontrivial)
+
+
+def check_C16(tier, seed):
+    def nontrivial(t):
+        ev = t["evs"][0]
+        if ev.get("exc") == "none" and len(ev["rows"]) > 1:
+            return digest([t["qs"][0]["cond"], t["qs"][0]["sel"], t["qs"][0]["flats"]])
+        return None
+    return _grammar_check(
+        "C16", tier, seed, ["G7i", "G7o"],
+        "flatten(e) for e in x.items / x.t (int lists, tuples, possibly empty, overlapping, repeated elements), x.n (a "
+        "scalar), x.refs / x.ref (objects); selections {element}, {parent, element}, {element, parent}; with and "
+        "without conditions on the element, the parent or both; rows compared as a multiset when parent and element are "
+        "selected; non-trivial = more than one row", 1, nontrivial=nontrivial, fix_world=_no_repeats)
+
+
+def check_C17(tier, seed):
+    def events(q):
+        return [drain_ev()]
+
+    def nontrivial(t):
+        ev = t["evs"][0]
+        q = t["qs"][0]
+        if ev.get("exc") == "none" and ev["rows"] and len(q["vars"]) == 2 and 0 < len(ev["rows"]) < len(q["vars"][1]["dom"]):
+            return digest(q["cond"])
+        return None
+    def extra(qc, rng, quick):
+        # an(entity(concatenate(e))): exactly one row, the list of everything in domain order and inner order
+        for _ in range(150 if quick else 3000):
+            W = datasets.random_world(rng, rng.randint(1, 6))
+            dom = datasets.domains_for(rng, W, 1, maxdom=5)[0]
+            attr = rng.choice(["items", "t", "n", "refs", "ref", "s"])
+            q = {"vars": [{"cls": "A", "dom": dom}], "flats": [], "bound": [1], "desc": "entity", "quant": "an",
+                 "sel": [{"k": "concat", "e": {"k": "attr", "e": {"k": "var", "i": 1}, "a": attr}}],
+                 "cond": {"k": "true"}, "varkeys": [1]}
+            qc.add(W, [q], [drain_ev()], tag="concat-selected")
+    rc = _grammar_check(
+        "C17", tier, seed, ["G7c"],
+        "membership of y.n / y.m / y / y.ref in concatenate(x.items | x.t | x.n | x.refs | x.ref) and its negation, combined "
+        "with other conditions on y, over parents with empty, overlapping and repeated inner collections; plus "
+        "an(entity(concatenate(e))) whose single row must be the list of all elements in domain and inner order; "
+        "non-trivial = some but not all y selected", 2, events=events, nontrivial=nontrivial,
+        needs=lambda p: count_nodes(p["cond"], "concat") > 0, extra=extra)
+    return rc
+
+
+def check_C15(tier, seed):
+    def events(q):
+        return [drain_ev()]
+    return _grammar_check(
+        "C15", tier, seed, ["G6"],
+        "sub-queries an(entity(x, c)), an(entity(y, c)), an(set_of([x, y], c)) used as conditions of an enclosing query "
+        "and combined with and_/or_/not_ with each other and with plain conditions; sub-queries used as comparison "
+        "operands (an(entity(y, c)).n == x.m, an(entity(y, c)) == x.ref, contains(x.refs, an(...))); TLC gives each the "
+        "meaning of its conditions inlined; non-trivial = result neither empty nor everything", 2, events=events,
+        needs=lambda p: count_nodes(p["cond"], "subq") + count_nodes(p["cond"], "sub") > 0)
+
+
+CHECKS.update({"C10": check_C10, "C15": check_C15, "C16": check_C16, "C17": check_C17})
